@@ -78,6 +78,17 @@ def gen_problem(rng, tier="quick", **over):
         ksol[j] = start[j] + st
         values = plant_eval(plant, ksol)
         family = family + "+probe_on_solution"
+    tiny = False
+    if family in ("lin_consistent", "quad") and rng.random() < 0.04:
+        # targets with a tiny weight, started a hair away from the solution: the weighted penalty is below the solver's
+        # absolute tolerance although no target is within its own tolerance
+        tiny = True
+        if all(limits[j] is None or limits[j][0] <= ksol[j] + 1e-8 * (1 + j) <= limits[j][1] for j in range(nk)):
+            start = [ksol[j] + 1e-8 * (1 + j) for j in range(nk)]
+        else:
+            tiny = False
+        if tiny:
+            family = family + "+tiny_weights"
     unit = rng.random() < 0.6
     spec = {
         "family": family, "nk": nk, "nt": nt, "plant": plant, "start": start, "limits": limits,
@@ -93,6 +104,18 @@ def gen_problem(rng, tier="quick", **over):
         "opts": {"n_steps_max": rng.choice([3, 5, 10, 20]), "restore_if_fail": True, "assert_within_tol": True,
                  "check_limits": True, "solver_options": {}},
     }
+    if tiny:
+        spec["tweights"] = [1e-13] * nt
+        spec["tols"] = [1e-10] * nt
+    if rng.random() < 0.1:
+        spec["same_name"] = True           # knobs that share a name, each in its own container
+    if rng.random() < 0.1 and not over.get("start_inside"):
+        # limits are not enforced on evaluation (check_limits=False): the optimizer clips when it steps; a knob may then
+        # start outside its limits
+        spec["opts"]["check_limits"] = False
+        for j in range(nk):
+            if limits[j] is not None and rng.random() < 0.5:
+                spec["start"][j] = round(limits[j][1] + rng.choice([0.5, 2.0]), 3) if rng.random() < 0.5 else round(limits[j][0] - rng.choice([0.5, 2.0]), 3)
     so = spec["opts"]["solver_options"]
     if rng.random() < 0.3:
         so["n_bisections"] = rng.choice([1, 2, 5])
@@ -103,9 +126,12 @@ def gen_problem(rng, tier="quick", **over):
     if rng.random() < 0.2 and nk >= 2:
         j = rng.randrange(nk)
         spec["vary_active"][j] = False
+        if rng.random() < 0.5:
+            spec["max_step"][j] = 0.0      # a knob that must not move at all
     if rng.random() < 0.2 and nt >= 2:
         j = rng.randrange(nt)
         spec["target_active"][j] = False
+    over.pop("start_inside", None)
     spec.update(over)
     return spec
 
